@@ -36,7 +36,7 @@ def one_case(args):
     nest = kind == 'rlock' and rng.random() < 0.6
     stray = kind == 'rlock' and rng.random() < 0.3
     results = []
-    n_sched = 12 if tier == 'quick' else 80
+    n_sched = 12 if tier == 'quick' else 40
     for si in range(n_sched):
         d = tempfile.mkdtemp(prefix='c15-', dir=scratch_root())
         env.core.sqlite3._timeout = 0
@@ -242,7 +242,7 @@ def fork_probe():
 
 
 def run(tier, seed, rng, known, replay):
-    n_cases = 40 if tier == 'quick' else 400
+    n_cases = 40 if tier == 'quick' else 200
     if replay:
         import json
         with open(replay) as f:
